@@ -16,7 +16,16 @@ for cid in ids:
             ent = ent.rstrip() + ',\n'
         s = s.replace('CLAIMED = {\n', 'CLAIMED = {\n' + ent, 1)
         print('manifest entry', cid, 'merged')
-    elif not m:
+    elif m:
+        pat = r'    "%s": dict\(.*?\n        ref="[^"]*"\),?\n' % cid
+        old = re.search(pat, s, re.S)
+        ent = m.group(0)
+        if not ent.rstrip().endswith(','):
+            ent = ent.rstrip() + ',\n'
+        if old and old.group(0) != ent:
+            s = s.replace(old.group(0), ent, 1)
+            print('manifest entry', cid, 'replaced')
+    else:
         print('!! no manifest entry for', cid, 'in agent copy')
 open('/verif/harness/gen_manifest.py', 'w').write(s)
 k = json.load(open('/verif/known_findings.json'))
